@@ -19,6 +19,16 @@ func cmdDump(args []string) {
 			fr := eng.newProof(f).newFrame(f, "", 0)
 			for h, li := range fr.loops {
 				fmt.Printf("loop %d: header block %d (%s), %d blocks\n", li.ord, h.Index, h.Comment, len(li.body))
+				for b := range li.body {
+					for _, in := range b.Instrs {
+						if in.Pos().IsValid() {
+							ps := eng.fset.Position(in.Pos())
+							if ps.Line < 218 || ps.Line > 330 {
+								fmt.Printf("   outlier: block %d %s at %v\n", b.Index, in.String(), ps)
+							}
+						}
+					}
+				}
 			}
 		}
 	}
